@@ -9,7 +9,7 @@ import vxgen
 from rsparse import mask, split_top_level
 
 VERIF = os.path.dirname(os.path.dirname(os.path.abspath(__file__)))
-BUILD = os.path.join(VERIF, "build")
+BUILD = os.environ.get("VERIF_BUILD") or os.path.join(VERIF, "build")
 
 SEMANTIC = [
     "postcondition not satisfied", "precondition not satisfied", "assertion failed",
